@@ -167,14 +167,36 @@ Qed.
 (* ================================================================== Part 3 (first half): sendMessage *)
 Definition resolve (c : cfg) (host : bytes) : bytes := match get_ip c host with Some i => i | None => host end.
 Definition tid_or_nil (m : message) : bytes := match tid_of m with Ok t => t | _ => [] end.
+(* the host under which the per-transaction entry is filed (handleRawMessage) and dropped
+   (sendMessage): the resolved address after the repair, the host as written before it *)
+Definition key_host (e : env) (host : bytes) : bytes :=
+  if fx_resolved_key (e_fx e) then resolve (e_cfg e) host else host.
+Lemma key_host_fixed e host : fx_resolved_key (e_fx e) = true -> key_host e host = resolve (e_cfg e) host.
+Proof. unfold key_host. intros ->. reflexivity. Qed.
+(* resolving is the identity on IPv4 literals and on unknown names; it is idempotent when the
+   host table maps names to IPv4 literals *)
+Lemma resolve_ipv4 c h : is_ipv4 h = true -> resolve c h = h.
+Proof. unfold resolve, get_ip. intros ->. reflexivity. Qed.
+Lemma resolve_unknown c h : is_ipv4 h = false -> alookup h (c_hosts c) = None -> resolve c h = h.
+Proof. unfold resolve, get_ip. intros -> ->. reflexivity. Qed.
+Lemma resolve_idem c h : (forall n ip, alookup n (c_hosts c) = Some ip -> is_ipv4 ip = true) ->
+  resolve c (resolve c h) = resolve c h.
+Proof.
+  intros HT. destruct (is_ipv4 h) eqn:E.
+  - rewrite (resolve_ipv4 c h E). apply resolve_ipv4. exact E.
+  - destruct (alookup h (c_hosts c)) as [ip|] eqn:A.
+    + assert (R : resolve c h = ip) by (unfold resolve, get_ip; rewrite E, A; reflexivity).
+      rewrite R. apply resolve_ipv4. exact (HT h ip A).
+    + rewrite (resolve_unknown c h E A). apply resolve_unknown; assumption.
+Qed.
 
 (* sendMessage touches three keys at most: the look-up key (resolved host), the connection-level
-   key it may create next to it, the key it removes (host as written) *)
+   key it may create next to it, the key it removes (the look-up key again after the repair) *)
 Lemma send_message_other e host port tr m x K f :
   alookup K (ps_table (x_p x)) = Some f -> keepable (now_s e) f ->
   K <> full_addr (to_lower tr) (resolve (e_cfg e) host) port (tid_or_nil m) ->
   K <> full_addr (to_lower tr) (resolve (e_cfg e) host) port [] ->
-  K <> full_addr (to_lower tr) host port (tid_or_nil m) ->
+  K <> full_addr (to_lower tr) (key_host e host) port (tid_or_nil m) ->
   alookup K (ps_table (x_p (fst (send_message e host port tr m x)))) = Some f /\
   (forall c, conn_open (x_conns x) c = true -> conn_open (x_conns (fst (send_message e host port tr m x))) c = true).
 Proof.
@@ -183,7 +205,7 @@ Proof.
   destruct (mtry s_client_transaction m) as [m1 tid]. cbn [snd] in S.
   assert (T : match tid with Ok (Some t) => t | _ => [] end = tid_or_nil m).
   { subst tid. unfold tid_or_nil. destruct (tid_of m); reflexivity. }
-  rewrite T. fold (resolve (e_cfg e) host).
+  rewrite T. fold (resolve (e_cfg e) host). fold (key_host e host).
   pose proof (get_transport_other (now_s e) tr (resolve (e_cfg e) host) port (tid_or_nil m) (x_p x) K f A Kp N1 N2) as G.
   pose proof (get_transport_key (now_s e) tr (resolve (e_cfg e) host) port (tid_or_nil m) (x_p x)) as GK.
   destruct (get_transport (now_s e) tr (resolve (e_cfg e) host) port (tid_or_nil m) (x_p x)) as [p1 rkey].
@@ -200,7 +222,7 @@ Proof.
     destruct (resolvable _ port); [|exact G]. rewrite set_primary_other by exact N1. exact G. }
   clearbody p2.
   destruct (alookup key (ps_table p2)) as [f0|]; cbn [fst x_p x_conns]; [|split; [exact A2|intros c H; exact H]].
-  set (p3 := if is_final_response m1 then remove_transport tr host port (tid_or_nil m) p2 else p2).
+  set (p3 := if is_final_response m1 then remove_transport tr (key_host e host) port (tid_or_nil m) p2 else p2).
   assert (A3 : alookup K (ps_table p3) = Some f).
   { subst p3. destruct (is_final_response m1); [|exact A2]. rewrite remove_transport_other by exact N3. exact A2. }
   clearbody p3.
@@ -226,7 +248,7 @@ Lemma send_message_conn e host port tr m x c ex sec t :
   x_outs x' = x_outs x ++ [(DConn c, write_message m1)] /\ x_conns x' = x_conns x /\
   ps_table (x_p x') =
     (if is_final_response m
-     then (let tb := adel (full_addr tcp host port t) (ps_table (clean_expired (now_s e) (x_p x))) in
+     then (let tb := adel (full_addr tcp (key_host e host) port t) (ps_table (clean_expired (now_s e) (x_p x))) in
            match alookup K tb with
            | Some _ => aset K {| fo_pri := Some (PConn c ex); fo_sec := sec |} tb
            | None => tb
@@ -237,7 +259,7 @@ Proof.
   pose proof (mtry_snd s_client_transaction m) as S. rewrite s_client_transaction_snd, Ht in S.
   pose proof (pres_try names _ P_tid m) as K1.
   destruct (mtry s_client_transaction m) as [m1 tid]. cbn [fst snd] in S, K1 |- *. subst tid. cbn [opt_res].
-  fold (resolve (e_cfg e) host).
+  fold (resolve (e_cfg e) host). fold (key_host e host).
   pose proof (clean_expired_keep (now_s e) (x_p x) K _ A (keepable_conn (now_s e) c ex sec L)) as C.
   rewrite (get_transport_found (now_s e) tr (resolve (e_cfg e) host) port t (x_p x) {| fo_pri := Some (PConn c ex); fo_sec := sec |});
     [|rewrite Htr; reflexivity|rewrite Htr; exact C].
@@ -345,49 +367,6 @@ Qed.
 Lemma lb_reg_pure e c host pt t p : lb_eq p (reg_pure e c host pt t p).
 Proof. unfold reg_pure. eapply lb_trans; [apply lb_get_transport|apply lb_set_primary]. Qed.
 
-(* a TCP request through handleRawMessage: the exact state handed on *)
-Lemma process_message_tcp_request e peer pport from rs c m x v cs br h0 pt tr0 host :
-  is_request m = true -> top_via_of m = Ok v -> snd (s_get_cseq m) = Ok cs -> via_get_branch v = Some br ->
-  hop_of_via (stamp_via rs peer pport v) = (h0, pt, tr0) -> reg_host (e_fx e) h0 = Ok host ->
-  exists m3 l1, keeps NP m m3 /\
-    process_message e peer pport from rs (Some c) m x =
-    pm_tail e peer pport from m3 (reg_pure e c host pt (cs_method cs ++ "-"%char :: br) (x_p x)) l1 x.
-Proof.
-  intros R TV CS BR HOP RH. unfold process_message. rewrite R. cbn [andb].
-  set (ML := if negb (amem peer (ps_backends (x_p x))) then _ else _).
-  assert (K1 : keeps NP m (fst ML) /\ top_via_of (fst ML) = top_via_of m).
-  { subst ML. destruct (negb _); [|split; [apply keeps_refl|reflexivity]].
-    pose proof (pres_all_via_params NP NP_novia m) as K. pose proof (top_after_decode m) as T.
-    destruct (s_all_via_params m) as [m' vs]. split; assumption. }
-  destruct ML as [m1 l1]. cbn [fst] in K1. destruct K1 as [K1 T1].
-  assert (R1 : is_request m1 = true) by (rewrite (k_is_request NP m m1 K1); exact R).
-  rewrite R1. cbn [andb].
-  set (m2 := if rs then fst (s_set_received peer pport m1) else m1).
-  assert (K2 : keeps NP m m2).
-  { subst m2. destruct rs; [|exact K1]. eapply keeps_trans; [exact K1|]. apply pres_set_received. apply NP_novia. }
-  assert (T2 : top_via_of m2 = Ok (stamp_via rs peer pport v)).
-  { subst m2. destruct rs; [rewrite top_after_stamp, T1, TV; reflexivity|rewrite T1; exact TV]. }
-  assert (R2 : is_request m2 = true) by (rewrite (k_is_request NP m m2 K2); exact R).
-  clearbody m2. clear K1 R1 T1 m1. rewrite R2.
-  pose proof (pres_try names _ (pres_next_response_hop names all_names_incl) m2) as K3.
-  pose proof (mtry_snd next_response_hop m2) as S3. rewrite next_response_hop_snd, T2 in S3. cbn [rmap] in S3. rewrite HOP in S3.
-  destruct (mtry next_response_hop m2) as [m' hop]. cbn [fst snd] in K3, S3. subst hop. cbn [opt_res].
-  fold (reg_host (e_fx e) h0). rewrite RH.
-  pose proof (pres_try names _ P_tid m') as K4.
-  pose proof (mtry_snd s_client_transaction m') as S4.
-  assert (K23 : keeps names m2 m') by exact K3.
-  rewrite s_client_transaction_snd, (tid_of_keeps names m2 m' K23) in S4 by in_names.
-  unfold tid_of in S4. rewrite T2, (k_cseq NP m m2 K2 ltac:(in_names)), CS in S4. cbn [rbind] in S4.
-  rewrite stamp_via_branch, BR in S4. cbn [of_opt rbind opt_res] in S4.
-  destruct (mtry s_client_transaction m') as [m'' tid]. cbn [fst snd] in K4, S4. subst tid.
-  pose proof (get_transport_tcp (now_s e) host pt (cs_method cs ++ "-"%char :: br) (x_p x)) as [GK _].
-  unfold reg_pure. fold tcp.
-  destruct (get_transport (now_s e) tcp host pt (cs_method cs ++ "-"%char :: br) (x_p x)) as [p1 rk].
-  cbn [fst snd] in GK |- *. subst rk.
-  exists m'', l1. split; [|reflexivity].
-  eapply keeps_trans; [exact K2|]. eapply keeps_incl; [apply NP_names|]. eapply keeps_trans; eassumption.
-Qed.
-
 (* the registration block of handleRawMessage, once the learning and the stamping are done *)
 Definition pm_block (e : env) (peer : bytes) (peer_port : Z) (from : stransport) (c : nat) (m2 : message)
            (l1 : learned) (x : ctx) : res ctx :=
@@ -411,7 +390,9 @@ Definition pm_block (e : env) (peer : bytes) (peer_port : Z) (from : stransport)
                   let '(m'', tid) := mtry s_client_transaction m' in
                   match tid with
                   | Ok (Some t) =>
-                      let '(p1, rk) := get_transport (now_s e) (s2b "tcp") host port t (x_p x) in
+                      let host_r := if fx_resolved_key (e_fx e)
+                                    then match get_ip (e_cfg e) host with Some i => i | None => host end else host in
+                      let '(p1, rk) := get_transport (now_s e) (s2b "tcp") host_r port t (x_p x) in
                       match rk with
                       | Ok key => (m'', Ok (set_primary key (PConn c (now_s e + 3600)) p1))
                       | _ => (m'', Ok p1)
@@ -461,7 +442,7 @@ Definition reg_target2 (fx : fixes) (m2 : message) : option (bytes * Z * bytes) 
   end.
 Definition reg_state2 (e : env) (c : nat) (m2 : message) (p : pstate) : pstate :=
   match reg_target2 (e_fx e) m2 with
-  | Some (host, pt, t) => reg_pure e c host pt t p
+  | Some (host, pt, t) => reg_pure e c (key_host e host) pt t p
   | None => p
   end.
 Lemma pm_block_spec e peer pport from c m2 l1 x : is_request m2 = true ->
@@ -485,10 +466,1032 @@ Proof.
     assert (K24 : keeps names m2 m'') by (eapply keeps_trans; eassumption).
     destruct (snd (s_get_cseq m2)) as [cs| |]; cbn [rbind opt_res]; try (exists m''; split; [exact K24|reflexivity]).
     destruct (via_get_branch v) as [br|]; cbn [of_opt rbind opt_res]; try (exists m''; split; [exact K24|reflexivity]).
-    pose proof (get_transport_tcp (now_s e) host pt (cs_method cs ++ "-"%char :: br) (x_p x)) as [GK _].
-    unfold reg_pure. fold tcp.
-    destruct (get_transport (now_s e) tcp host pt (cs_method cs ++ "-"%char :: br) (x_p x)) as [p1 rk].
+    pose proof (get_transport_tcp (now_s e) (key_host e host) pt (cs_method cs ++ "-"%char :: br) (x_p x)) as [GK _].
+    unfold reg_pure. fold tcp. cbv zeta. fold (resolve (e_cfg e) host). fold (key_host e host).
+    destruct (get_transport (now_s e) tcp (key_host e host) pt (cs_method cs ++ "-"%char :: br) (x_p x)) as [p1 rk].
     cbn [fst snd] in GK |- *. subst rk. exists m''. split; [exact K24|reflexivity].
   - left. exists m'. split; [exact K3|reflexivity].
   - left. exists m'. split; [exact K3|reflexivity].
 Qed.
+
+(* the same target read from the message as received: the stamping acts on the top Via only *)
+Definition reg_target (fx : fixes) (rs : bool) (peer : bytes) (pport : Z) (m : message) : option (bytes * Z * bytes) :=
+  match top_via_of m with
+  | Ok v =>
+      let sv := stamp_via rs peer pport v in
+      match reg_host fx (fst (fst (hop_of_via sv))), snd (s_get_cseq m), via_get_branch v with
+      | Ok host, Ok cs, Some br => Some (host, snd (fst (hop_of_via sv)), cs_method cs ++ "-"%char :: br)
+      | _, _, _ => None
+      end
+  | _ => None
+  end.
+Definition reg_state (e : env) (c : nat) (rs : bool) (peer : bytes) (pport : Z) (m : message) (p : pstate) : pstate :=
+  match reg_target (e_fx e) rs peer pport m with
+  | Some (host, pt, t) => reg_pure e c (key_host e host) pt t p
+  | None => p
+  end.
+Lemma reg_target2_eq fx rs peer pport m m2 : keeps NP m m2 ->
+  top_via_of m2 = rmap (stamp_via rs peer pport) (top_via_of m) ->
+  reg_target2 fx m2 = reg_target fx rs peer pport m.
+Proof.
+  intros K T. unfold reg_target2, reg_target. rewrite T, (k_cseq NP m m2 K ltac:(in_names)).
+  destruct (top_via_of m) as [v| |]; cbn [rmap]; try reflexivity. rewrite stamp_via_branch. reflexivity.
+Qed.
+
+(* ---- the table half is untouched by everything that is not a transport operation ---- *)
+Lemma hd_tail_pure_tb e p1 ob m p' : hd_tail_pure e p1 ob m = Ok p' -> ps_table p' = ps_table p1.
+Proof.
+  unfold hd_tail_pure. destruct ob as [b|]; [|intros H; injection H as <-; reflexivity].
+  destruct (method_of m) as [meth| |]; try discriminate; [|intros H; injection H as <-; reflexivity].
+  destruct (beq meth (s2b "INVITE")).
+  { destruct (dialog_of m); try discriminate; intros H; injection H as <-; reflexivity. }
+  destruct (beq meth (s2b "BYE")); [|intros H; injection H as <-; reflexivity].
+  destruct (dialog_of m); try discriminate; intros H; injection H as <-; reflexivity.
+Qed.
+Lemma hd_pure_tb e peer port p m p' : hd_pure e peer port p m = Ok p' -> ps_table p' = ps_table p.
+Proof.
+  unfold hd_pure. destruct (alookup _ _); [apply hd_tail_pure_tb|].
+  destruct (tid_of m); try discriminate. intros H. apply hd_tail_pure_tb in H. rewrite H. reflexivity.
+Qed.
+Lemma sub_bind_pure_tb e p m : ps_table (sub_bind_pure e p m) = ps_table p.
+Proof.
+  unfold sub_bind_pure. destruct (relay_hop m) as [[[h pt] tr]| |]; try reflexivity.
+  destruct (method_of m); try reflexivity. destruct (beq _ _); [|reflexivity].
+  destruct (alookup _ _); [|reflexivity]. destruct (dialog_of m); reflexivity.
+Qed.
+Lemma resp_pure_tb e peer port p m : ps_table (resp_pure e peer port p m) = ps_table p.
+Proof.
+  unfold resp_pure. rewrite sub_bind_pure_tb.
+  destruct (hd_pure e peer port p m) eqn:E; try reflexivity. eapply hd_pure_tb. exact E.
+Qed.
+Lemma stb_sel_tb e p m : ps_table (fst (stb_sel e p m)) = ps_table p.
+Proof.
+  unfold stb_sel, fbd_pure.
+  destruct (method_of m) as [meth| |]; try reflexivity.
+  destruct (_ && _)%bool; [reflexivity|].
+  destruct (dialog_of m) as [d| |]; try reflexivity.
+  destruct (get_raw _ m); cbn [fst]; try reflexivity; destruct (notify_terminated meth m); reflexivity.
+Qed.
+Lemma stb_pure_tb e t0 p m : ps_table (fst (stb_pure e t0 p m)) = ps_table p.
+Proof.
+  unfold stb_pure. pose proof (stb_sel_tb e p m) as T. destruct (stb_sel e p m) as [p1 b]. cbn [fst] in T.
+  assert (B : forall bytes_, ps_table (fst (fst (backend_send b bytes_ p1))) = ps_table p1).
+  { intros bytes_. unfold backend_send. destruct b as [a g|].
+    - destruct (_ && _)%bool; reflexivity.
+    - destruct (rr_dispatch (ps_rr p1)) as [r' o]. destruct o as [a|]; [destruct (fits_datagram bytes_)|]; reflexivity. }
+  specialize (B (fwd_bytes e t0 p m)).
+  destruct (backend_send b (fwd_bytes e t0 p m) p1) as [[p2 outs] ok]. cbn [fst] in B.
+  destruct ok; cbn [fst]; [|congruence].
+  destruct (snd (s_get_cseq m)); cbn [ps_table with_pins]; congruence.
+Qed.
+Lemma send_to_backend_tb e m x :
+  ps_table (x_p (fst (send_to_backend e m x))) = ps_table (x_p x) /\ x_conns (fst (send_to_backend e m x)) = x_conns x.
+Proof.
+  destruct (ps_has_rr (x_p x)) eqn:HR.
+  2:{ unfold send_to_backend. rewrite HR. cbn. split; reflexivity. }
+  destruct (first_transport (e_lc e)) as [t0|] eqn:FT.
+  2:{ unfold send_to_backend. rewrite HR, FT. cbn. split; reflexivity. }
+  destruct (send_to_backend_spec e m x t0 HR FT) as (EP & _ & _ & EC & _). rewrite EP. split; [apply stb_pure_tb|exact EC].
+Qed.
+
+(* requests that the proxy does not relay along a Route / static route *)
+Definition not_forwarded (e : env) (m : message) : Prop :=
+  hvals (s2b "Route") (m_headers m) = [] /\ forall v, static_hop e m <> Ok v.
+Lemma handle_message_local e from m x : is_request m = true -> not_forwarded e m ->
+  ps_table (x_p (fst (handle_message e from m x))) = ps_table (x_p x) /\
+  x_conns (fst (handle_message e from m x)) = x_conns x.
+Proof.
+  intros R [HR NS]. pose proof (handle_message_request e from m x R) as H. cbv zeta in H.
+  rewrite (hop_result_no_route e m HR) in H.
+  destruct (static_hop e m) as [v| |] eqn:ES; [exfalso; exact (NS v eq_refl)| |];
+    (destruct (is_my_message _ from m); [destruct H as (m' & _ & ->); apply send_to_backend_tb|rewrite H; split; reflexivity]).
+Qed.
+Lemma pm_tail_exact e peer port from m3 p1 l1 x m : keeps NP m m3 -> is_request m = true ->
+  exists m4, keeps NQ m m4 /\
+    (route_consumed (e_cfg e) from m -> hvals (s2b "Route") (m_headers m4) = []) /\
+    pm_tail e peer port from m3 p1 l1 x =
+    Ok (fst (handle_message e from m4 {| x_learned := l1; x_p := p1; x_conns := x_conns x; x_world := x_world x; x_outs := x_outs x |})).
+Proof.
+  intros K R. unfold pm_tail.
+  pose proof (pres_try NQ _ (pres_try_remove_top_route NQ (e_cfg e) from NQ_noroute) m3) as K4.
+  set (m4 := fst (mtry (try_remove_top_route (e_cfg e) from) m3)) in *.
+  assert (K04 : keeps NQ m m4) by (eapply keeps_trans; [eapply keeps_incl; [apply NQ_NP|exact K]|exact K4]).
+  assert (R4 : is_response m4 = false) by (rewrite (k_is_response NQ m m4 K04); unfold is_response; rewrite R; reflexivity).
+  rewrite R4. exists m4. split; [exact K04|]. split; [|reflexivity].
+  intros HR. subst m4. apply try_remove_consumes.
+  apply (route_consumed_keeps NP (e_cfg e) from m m3 K); [in_names|exact HR].
+Qed.
+Lemma not_forwarded_keeps e from m m4 : keeps NQ m m4 ->
+  (route_consumed (e_cfg e) from m -> hvals (s2b "Route") (m_headers m4) = []) ->
+  not_forwarded e m -> not_forwarded e m4.
+Proof.
+  intros K HR4 [HR NS]. split; [apply HR4; left; exact HR|].
+  intros v. rewrite (static_hop_keeps NQ e m m4 K ltac:(in_names)). apply NS.
+Qed.
+(* a request over UDP: nothing is registered *)
+Lemma pm_udp_prefix e peer pport from rs m x : is_request m = true ->
+  exists m2 l1, keeps NP m m2 /\ process_message e peer pport from rs None m x = pm_tail e peer pport from m2 (x_p x) l1 x.
+Proof.
+  intros R. unfold process_message. rewrite R. cbn [andb].
+  set (ML := if negb (amem peer (ps_backends (x_p x))) then _ else _).
+  assert (K1 : keeps NP m (fst ML)).
+  { subst ML. destruct (negb _); [|apply keeps_refl].
+    pose proof (pres_all_via_params NP NP_novia m) as K. destruct (s_all_via_params m) as [m' vs]. exact K. }
+  destruct ML as [m1 l1]. cbn [fst] in K1.
+  assert (R1 : is_request m1 = true) by (rewrite (k_is_request NP m m1 K1); exact R).
+  rewrite R1. cbn [andb].
+  set (m2 := if rs then fst (s_set_received peer pport m1) else m1).
+  assert (K2 : keeps NP m m2).
+  { subst m2. destruct rs; [|exact K1]. eapply keeps_trans; [exact K1|]. apply pres_set_received. apply NP_novia. }
+  clearbody m2. exists m2, l1. split; [exact K2|reflexivity].
+Qed.
+
+(* a request that is not relayed: the connections are as before, the table is as before except for
+   the registration of the connection it arrived on *)
+Lemma request_local e peer pport from rs tcp0 m x x' : is_request m = true -> not_forwarded e m ->
+  process_message e peer pport from rs tcp0 m x = Ok x' ->
+  x_conns x' = x_conns x /\
+  ps_table (x_p x') = ps_table (match tcp0 with Some c => reg_state e c rs peer pport m (x_p x) | None => x_p x end).
+Proof.
+  intros R NF E.
+  assert (T : exists m3 l1 p1, keeps NP m m3 /\ pm_tail e peer pport from m3 p1 l1 x = Ok x' /\
+            p1 = match tcp0 with Some c => reg_state e c rs peer pport m (x_p x) | None => x_p x end).
+  { destruct tcp0 as [c|].
+    - destruct (pm_tcp_prefix e peer pport from rs c m x R) as (m2 & l1 & K2 & T2 & EQ). rewrite EQ in E.
+      assert (R2 : is_request m2 = true) by (rewrite (k_is_request NP m m2 K2); exact R).
+      destruct (pm_block_spec e peer pport from c m2 l1 x R2) as [(m3 & K3 & EQ3)|[EQ3|EQ3]];
+        rewrite EQ3 in E; try discriminate.
+      exists m3, l1, (reg_state2 e c m2 (x_p x)). split; [|split; [exact E|]].
+      + eapply keeps_trans; [exact K2|eapply keeps_incl; [apply NP_names|exact K3]].
+      + unfold reg_state2, reg_state. rewrite (reg_target2_eq (e_fx e) rs peer pport m m2 K2 T2). reflexivity.
+    - destruct (pm_udp_prefix e peer pport from rs m x R) as (m2 & l1 & K2 & EQ). rewrite EQ in E.
+      exists m2, l1, (x_p x). split; [exact K2|split; [exact E|reflexivity]]. }
+  destruct T as (m3 & l1 & p1 & K3 & E3 & EP1).
+  destruct (pm_tail_exact e peer pport from m3 p1 l1 x m K3 R) as (m4 & K4 & HR4 & EQ4). rewrite EQ4 in E3.
+  injection E3 as <-.
+  assert (R4 : is_request m4 = true) by (rewrite (k_is_request NQ m m4 K4); exact R).
+  destruct (handle_message_local e from m4
+              {| x_learned := l1; x_p := p1; x_conns := x_conns x; x_world := x_world x; x_outs := x_outs x |}
+              R4 (not_forwarded_keeps e from m m4 K4 HR4 NF)) as [H1 H2].
+  cbn [x_p x_conns] in H1, H2. rewrite <- EP1. split; [exact H2|exact H1].
+Qed.
+
+(* ---- C12_register ---- *)
+(* for any setting of the repair flag: the entry is filed under [key_host e host] *)
+Lemma C12_register_gen : forall e peer pport from rs c m x x' v cs br h0 pt tr0 host,
+  is_request m = true -> not_forwarded e m ->
+  top_via_of m = Ok v -> snd (s_get_cseq m) = Ok cs -> via_get_branch v = Some br ->
+  hop_of_via (stamp_via rs peer pport v) = (h0, pt, tr0) -> reg_host (e_fx e) h0 = Ok host ->
+  process_message e peer pport from rs (Some c) m x = Ok x' ->
+  let K := full_addr tcp (key_host e host) pt (cs_method cs ++ "-"%char :: br) in
+  reg_at K c (now_s e + 3600) (x_p x') /\ x_conns x' = x_conns x /\
+  (forall K' f, alookup K' (ps_table (x_p x)) = Some f -> keepable (now_s e) f ->
+                K' <> K -> K' <> full_addr tcp (key_host e host) pt [] -> alookup K' (ps_table (x_p x')) = Some f).
+Proof.
+  intros e peer pport from rs c m x x' v cs br h0 pt tr0 host R NF TV CS BR HOP RH E K.
+  destruct (request_local e peer pport from rs (Some c) m x x' R NF E) as [EC ET].
+  assert (RS : reg_state e c rs peer pport m (x_p x)
+               = reg_pure e c (key_host e host) pt (cs_method cs ++ "-"%char :: br) (x_p x)).
+  { unfold reg_state, reg_target. rewrite TV. cbv zeta. rewrite HOP. cbn [fst snd]. rewrite RH, CS, BR. reflexivity. }
+  rewrite RS in ET. split; [|split; [exact EC|]].
+  - unfold reg_at. rewrite ET. apply reg_pure_reg.
+  - intros K' f A Kp N1 N2. rewrite ET. apply reg_pure_other; assumption.
+Qed.
+(* after the repair: filed under the RESOLVED response host, the address sendMessage looks up *)
+Theorem C12_register : forall e peer pport from rs c m x x' v cs br h0 pt tr0 host,
+  fx_resolved_key (e_fx e) = true ->
+  is_request m = true -> not_forwarded e m ->
+  top_via_of m = Ok v -> snd (s_get_cseq m) = Ok cs -> via_get_branch v = Some br ->
+  hop_of_via (stamp_via rs peer pport v) = (h0, pt, tr0) -> reg_host (e_fx e) h0 = Ok host ->
+  process_message e peer pport from rs (Some c) m x = Ok x' ->
+  let K := full_addr tcp (resolve (e_cfg e) host) pt (cs_method cs ++ "-"%char :: br) in
+  reg_at K c (now_s e + 3600) (x_p x') /\ x_conns x' = x_conns x /\
+  (* every other entry is as it was *)
+  (forall K' f, alookup K' (ps_table (x_p x)) = Some f -> keepable (now_s e) f ->
+                K' <> K -> K' <> full_addr tcp (resolve (e_cfg e) host) pt [] ->
+                alookup K' (ps_table (x_p x')) = Some f).
+Proof.
+  intros e peer pport from rs c m x x' v cs br h0 pt tr0 host FX R NF TV CS BR HOP RH E.
+  rewrite <- (key_host_fixed e host FX).
+  exact (C12_register_gen e peer pport from rs c m x x' v cs br h0 pt tr0 host R NF TV CS BR HOP RH E).
+Qed.
+
+(* ================================================================== Part 3 (second half): the relayed response *)
+(* the transaction id sendMessage computes for a response: CSeq method and the branch of the Via
+   entry that is on top once the proxy's own entry is popped *)
+Definition resp_tid_of (m : message) : res bytes :=
+  let! c := snd (s_get_cseq m) in
+  let! v := next_top m in
+  let! b := of_opt (via_get_branch v) in
+  Ok (cs_method c ++ "-"%char :: b).
+Lemma tid_of_popped m : tid_of (fst (s_pop_via m)) = resp_tid_of m.
+Proof.
+  unfold tid_of, resp_tid_of, next_top.
+  rewrite (k_cseq NP m _ (pres_pop_via NP NP_novia m) ltac:(in_names)). reflexivity.
+Qed.
+Lemma resp_tid_of_keeps N m m' : keeps N m m' -> In (s2b "CSeq") N -> In (s2b "Via") N ->
+  resp_tid_of m' = resp_tid_of m.
+Proof.
+  intros K H1 H2. unfold resp_tid_of. rewrite (k_cseq N m m' K H1), (next_top_keeps N m m' K H2). reflexivity.
+Qed.
+
+Definition ctx_with (x : ctx) (p : pstate) : ctx :=
+  {| x_learned := x_learned x; x_p := p; x_conns := x_conns x; x_world := x_world x; x_outs := x_outs x |}.
+
+Lemma handle_message_response_exact e from m x : is_request m = false ->
+  exists m4, tid_of m4 = resp_tid_of m /\ is_final_response m4 = is_final_response m /\
+    fst (handle_message e from m x) =
+    match relay_hop m with
+    | Ok (h, pt, tr) => fst (send_message e h pt tr m4 (ctx_with x (sub_bind_pure e (x_p x) m)))
+    | _ => ctx_with x (sub_bind_pure e (x_p x) m)
+    end.
+Proof.
+  intros R. unfold handle_message, ctx_with. rewrite R.
+  pose proof (pres_try NP _ (pres_pop_via NP NP_novia) m) as K1.
+  pose proof (mtry_fst s_pop_via m) as F1.
+  destruct (mtry s_pop_via m) as [m1 r0]. cbn [fst] in K1, F1.
+  pose proof (pres_try names _ (pres_next_response_hop names all_names_incl) m1) as K2.
+  pose proof (mtry_snd next_response_hop m1) as S2.
+  destruct (mtry next_response_hop m1) as [m2 hop]. cbn [fst snd] in K2, S2.
+  rewrite next_response_hop_snd, F1 in S2. fold (next_top m) in S2. fold (relay_hop m) in S2.
+  assert (K02 : keeps NP m m2) by (eapply keeps_trans; [exact K1|eapply keeps_incl; [apply NP_names|exact K2]]).
+  pose proof (pres_try names _ P_method m2) as K3.
+  pose proof (mtry_snd s_get_method m2) as S3.
+  destruct (mtry s_get_method m2) as [m3 ometh]. cbn [fst snd] in K3, S3.
+  rewrite s_get_method_snd, (method_of_keeps NP m m2 K02 ltac:(in_names)) in S3.
+  assert (K03 : keeps NP m m3) by (eapply keeps_trans; [exact K02|eapply keeps_incl; [apply NP_names|exact K3]]).
+  assert (K13 : keeps names m1 m3) by (eapply keeps_trans; eassumption).
+  assert (FACT : forall m4, keeps names m1 m4 -> tid_of m4 = resp_tid_of m /\ is_final_response m4 = is_final_response m).
+  { intros m4 K. split.
+    - rewrite (tid_of_keeps names m1 m4 K) by in_names. rewrite F1. apply tid_of_popped.
+    - rewrite (k_is_final names m1 m4 K). apply (k_is_final NP m m1 K1). }
+  subst hop ometh. unfold sub_bind_pure.
+  destruct (relay_hop m) as [[[host port] tr]| |]; cbn [opt_res].
+  2:{ exists m3. destruct (FACT m3 K13) as [F2 F3]. split; [exact F2|]. split; [exact F3|]. reflexivity. }
+  2:{ exists m3. destruct (FACT m3 K13) as [F2 F3]. split; [exact F2|]. split; [exact F3|]. reflexivity. }
+  destruct (method_of m) as [meth| |]; cbn [opt_res].
+  2:{ exists m3. destruct (FACT m3 K13) as [F2 F3]. split; [exact F2|]. split; [exact F3|]. reflexivity. }
+  2:{ exists m3. destruct (FACT m3 K13) as [F2 F3]. split; [exact F2|]. split; [exact F3|]. reflexivity. }
+  destruct (beq meth (s2b "SUBSCRIBE")).
+  2:{ exists m3. destruct (FACT m3 K13) as [F2 F3]. split; [exact F2|]. split; [exact F3|]. reflexivity. }
+  destruct (alookup (host ++ ":"%char :: itoa port) (ps_backends (x_p x))) as [g|].
+  2:{ exists m3. destruct (FACT m3 K13) as [F2 F3]. split; [exact F2|]. split; [exact F3|]. reflexivity. }
+  pose proof (pres_try names _ P_dialog m3) as K4.
+  pose proof (mtry_snd s_get_dialog m3) as S4.
+  destruct (mtry s_get_dialog m3) as [m4 od]. cbn [fst snd] in K4, S4.
+  rewrite s_get_dialog_snd, (dialog_of_keeps NP m m3 K03) in S4 by in_names.
+  assert (K04 : keeps NP m m4) by (eapply keeps_trans; [exact K03|eapply keeps_incl; [apply NP_names|exact K4]]).
+  assert (K14 : keeps names m1 m4) by (eapply keeps_trans; eassumption).
+  subst od. exists m4. destruct (FACT m4 K14) as [F2 F3]. split; [exact F2|]. split; [exact F3|].
+  destruct (dialog_of m) as [d| |]; cbn [opt_res]; try reflexivity.
+  rewrite (k_expires NP m m4 K04 ltac:(in_names)). reflexivity.
+Qed.
+
+Lemma process_message_response_exact e peer port from rs tcp0 m x : is_request m = false ->
+  exists m4, tid_of m4 = resp_tid_of m /\ is_final_response m4 = is_final_response m /\
+    process_message e peer port from rs tcp0 m x =
+    Ok (match relay_hop m with
+        | Ok (h, pt, tr) => fst (send_message e h pt tr m4 (ctx_with x (resp_pure e peer port (x_p x) m)))
+        | _ => ctx_with x (resp_pure e peer port (x_p x) m)
+        end).
+Proof.
+  intros R. remember (process_message e peer port from rs tcp0 m x) as pm eqn:EPM.
+  unfold process_message in EPM. rewrite R in EPM. cbn [andb] in EPM.
+  cbv iota in EPM. rewrite R in EPM. cbn [andb] in EPM. cbv iota in EPM. rewrite R in EPM.
+  assert (T : (match tcp0 with Some _ => (m, Ok (x_p x)) | None => (m, Ok (x_p x)) end) = (m, @Ok pstate (x_p x)))
+    by (destruct tcp0; reflexivity).
+  rewrite T in EPM. cbv iota in EPM. clear T.
+  pose proof (pres_try NR _ (pres_try_remove_top_route NR (e_cfg e) from NR_noroute) m) as K4.
+  set (m4' := fst (mtry (try_remove_top_route (e_cfg e) from) m)) in *.
+  assert (R4 : is_response m4' = true) by (rewrite (k_is_response NR m m4' K4); unfold is_response; rewrite R; reflexivity).
+  rewrite R4 in EPM.
+  destruct (handle_dialog_run e peer port (x_p x) m4') as (m5 & E5 & K5). rewrite E5 in EPM.
+  rewrite (hd_pure_keeps NR e peer port (x_p x) m m4' K4) in EPM by (intros a Ha; exact Ha).
+  assert (K05 : keeps NR m m5) by (eapply keeps_trans; [exact K4|eapply keeps_incl; [apply NR_names|exact K5]]).
+  assert (R5 : is_request m5 = false) by (rewrite (k_is_request NR m m5 K05); exact R).
+  set (p2 := match hd_pure e peer port (x_p x) m with Ok p' => p' | _ => x_p x end) in *.
+  destruct (handle_message_response_exact e from m5 (ctx_with x p2) R5) as (m4 & F2 & F3 & EQ).
+  exists m4. split; [rewrite F2; apply (resp_tid_of_keeps NR m m5 K05); in_names|].
+  split; [rewrite F3; apply (k_is_final NR m m5 K05)|].
+  subst pm. unfold ctx_with in EQ |- *. cbn [x_learned x_p x_conns x_world x_outs] in EQ. rewrite EQ.
+  unfold resp_pure. fold p2. rewrite (sub_bind_pure_keeps NR e p2 m m5 K05) by (intros a Ha; exact Ha).
+  unfold relay_hop. rewrite (next_top_keeps NR m m5 K05) by in_names. reflexivity.
+Qed.
+
+(* ---- C12_lookup / C12_until_final ---- *)
+Theorem C12_lookup : forall e peer pport from rs tcp0 m x v host pt tr cs br c ex,
+  is_request m = false ->
+  next_top m = Ok v -> hop_of_via v = (host, pt, tr) -> to_lower tr = tcp ->
+  snd (s_get_cseq m) = Ok cs -> via_get_branch v = Some br ->
+  let K := full_addr tcp (resolve (e_cfg e) host) pt (cs_method cs ++ "-"%char :: br) in
+  reg_at K c ex (x_p x) -> live (now_s e) ex -> conn_open (x_conns x) c = true ->
+  exists x' b, process_message e peer pport from rs tcp0 m x = Ok x' /\
+    (* written to c and to nothing else *)
+    x_outs x' = x_outs x ++ [(DConn c, b)] /\ x_conns x' = x_conns x /\
+    (* a provisional response leaves the entry in place *)
+    (is_final_response m = false -> reg_at K c ex (x_p x')) /\
+    (* a final response consumes it, AFTER having been sent through it *)
+    (is_final_response m = true -> fx_resolved_key (e_fx e) = true -> alookup K (ps_table (x_p x')) = None).
+Proof.
+  intros e peer pport from rs tcp0 m x v host pt tr cs br c ex R NT HOP TR CS BR K [sec A] L O.
+  destruct (process_message_response_exact e peer pport from rs tcp0 m x R) as (m4 & F2 & F3 & EQ).
+  assert (RH : relay_hop m = Ok (host, pt, tr)) by (unfold relay_hop; rewrite NT; cbn [rmap]; rewrite HOP; reflexivity).
+  assert (T4 : tid_of m4 = Ok (cs_method cs ++ "-"%char :: br)).
+  { rewrite F2. unfold resp_tid_of. rewrite CS, NT. cbn [rbind]. rewrite BR. reflexivity. }
+  rewrite RH in EQ.
+  set (X := ctx_with x (resp_pure e peer pport (x_p x) m)) in *.
+  assert (A' : alookup (full_addr tcp (resolve (e_cfg e) host) pt (cs_method cs ++ "-"%char :: br)) (ps_table (x_p X))
+               = Some {| fo_pri := Some (PConn c ex); fo_sec := sec |}).
+  { subst X. unfold ctx_with. cbn [x_p]. rewrite resp_pure_tb. exact A. }
+  destruct (send_message_conn e host pt tr m4 X c ex sec (cs_method cs ++ "-"%char :: br) T4 TR A' L O) as (O1 & O2 & O3).
+  eexists. eexists. split; [exact EQ|]. split; [exact O1|]. split; [exact O2|]. rewrite F3 in O3. fold K in O3. split.
+  - intros NF. rewrite NF in O3. exists sec. rewrite O3. apply alookup_aset_same.
+  - intros FI FX. rewrite FI in O3. rewrite O3. cbv zeta. subst K. rewrite (key_host_fixed e host FX).
+    set (tb := adel (full_addr tcp (resolve (e_cfg e) host) pt (cs_method cs ++ "-"%char :: br)) _).
+    assert (N : alookup (full_addr tcp (resolve (e_cfg e) host) pt (cs_method cs ++ "-"%char :: br)) tb = None)
+      by apply alookup_adel_same.
+    rewrite N. exact N.
+Qed.
+
+(* provisional and final responses alike are written to the registered connection: the look-up
+   precedes the removal, the entry object already fetched is used for the send *)
+Corollary C12_until_final : forall e peer pport from rs tcp0 m x v host pt tr cs br c ex,
+  is_request m = false ->
+  next_top m = Ok v -> hop_of_via v = (host, pt, tr) -> to_lower tr = tcp ->
+  snd (s_get_cseq m) = Ok cs -> via_get_branch v = Some br ->
+  reg_at (full_addr tcp (resolve (e_cfg e) host) pt (cs_method cs ++ "-"%char :: br)) c ex (x_p x) ->
+  live (now_s e) ex -> conn_open (x_conns x) c = true ->
+  exists x' b, process_message e peer pport from rs tcp0 m x = Ok x' /\ x_outs x' = x_outs x ++ [(DConn c, b)].
+Proof.
+  intros e peer pport from rs tcp0 m x v host pt tr cs br c ex R NT HOP TR CS BR RA L O.
+  destruct (C12_lookup e peer pport from rs tcp0 m x v host pt tr cs br c ex R NT HOP TR CS BR RA L O)
+    as (x' & b & E & O1 & _). exists x', b. split; assumption.
+Qed.
+
+(* ================================================================== Part 5: events and histories *)
+(* connections are never closed by message processing (only by EvTcpClose and by a decode error
+   on the connection itself) *)
+Lemma send_message_mono e host port tr m x c0 : conn_open (x_conns x) c0 = true ->
+  conn_open (x_conns (fst (send_message e host port tr m x))) c0 = true.
+Proof.
+  intros H. unfold send_message.
+  destruct (mtry s_client_transaction m) as [m1 tid].
+  destruct (get_transport _ _ _ _ _ _) as [p1 rkey].
+  destruct rkey as [key| |]; cbn [fst x_conns]; try exact H.
+  match goal with |- context [alookup key (ps_table ?p2)] => destruct (alookup key (ps_table p2)) as [f|] end;
+    cbn [fst x_conns]; [|exact H].
+  match goal with |- context [failover_send ?a ?b ?cc f ?d ?p3 ?cs ?w] =>
+    pose proof (failover_send_frame a b cc f d p3 cs w c0) as F; destruct (failover_send a b cc f d p3 cs w) as [[[[[p4 cs'] w'] outs] ok] f'] end.
+  cbn [fst snd x_conns] in *. apply F. exact H.
+Qed.
+Lemma handle_message_mono e from m x c0 : conn_open (x_conns x) c0 = true ->
+  conn_open (x_conns (fst (handle_message e from m x))) c0 = true.
+Proof.
+  intros H. unfold handle_message. destruct (is_request m).
+  - destruct (next_request_hop _ _ m) as [m1 r]. destruct r as [[[h p] t]| |].
+    + apply send_message_mono. destruct (alookup h (x_learned x)); exact H.
+    + destruct (is_my_message _ from m1); [|exact H]. rewrite (proj2 (send_to_backend_tb e m1 x)). exact H.
+    + destruct (is_my_message _ from m1); [|exact H]. rewrite (proj2 (send_to_backend_tb e m1 x)). exact H.
+  - destruct (mtry s_pop_via m) as [m1 r0]. destruct (mtry next_response_hop m1) as [m2 hop].
+    destruct (mtry s_get_method m2) as [m3 ometh].
+    match goal with |- context [let '(m4, p1) := ?B in _] => destruct B as [m4 p1] end.
+    destruct hop as [[[[h p] t]|]| |]; try exact H. apply send_message_mono. exact H.
+Qed.
+Lemma process_message_mono e peer pport from rs tcp0 m x x' c0 :
+  process_message e peer pport from rs tcp0 m x = Ok x' ->
+  conn_open (x_conns x) c0 = true -> conn_open (x_conns x') c0 = true.
+Proof.
+  intros E H. destruct (is_request m) eqn:R.
+  - assert (T : exists m3 l1 p1, keeps NP m m3 /\ pm_tail e peer pport from m3 p1 l1 x = Ok x').
+    { destruct tcp0 as [c|].
+      - destruct (pm_tcp_prefix e peer pport from rs c m x R) as (m2 & l1 & K2 & T2 & EQ). rewrite EQ in E.
+        assert (R2 : is_request m2 = true) by (rewrite (k_is_request NP m m2 K2); exact R).
+        destruct (pm_block_spec e peer pport from c m2 l1 x R2) as [(m3 & K3 & EQ3)|[EQ3|EQ3]];
+          rewrite EQ3 in E; try discriminate.
+        exists m3, l1, (reg_state2 e c m2 (x_p x)). split; [|exact E].
+        eapply keeps_trans; [exact K2|eapply keeps_incl; [apply NP_names|exact K3]].
+      - destruct (pm_udp_prefix e peer pport from rs m x R) as (m2 & l1 & K2 & EQ). rewrite EQ in E.
+        exists m2, l1, (x_p x). split; [exact K2|exact E]. }
+    destruct T as (m3 & l1 & p1 & K3 & E3).
+    destruct (pm_tail_exact e peer pport from m3 p1 l1 x m K3 R) as (m4 & _ & _ & EQ4). rewrite EQ4 in E3.
+    injection E3 as <-. apply handle_message_mono. exact H.
+  - destruct (process_message_response_exact e peer pport from rs tcp0 m x R) as (m4 & _ & _ & EQ).
+    rewrite EQ in E. injection E as <-.
+    destruct (relay_hop m) as [[[h pt] tr]| |]; try exact H. apply send_message_mono. exact H.
+Qed.
+Lemma conn_open_close_other c' cs c : c' <> c -> conn_open (close_conn c' cs) c = conn_open cs c.
+Proof.
+  intros NE. unfold conn_open. induction cs as [|a r IH]; cbn [close_conn]; [reflexivity|].
+  destruct (Nat.eqb_spec (cn_id a) c') as [E|E]; cbn [existsb].
+  - cbn [cn_id cn_open]. destruct (Nat.eqb_spec (cn_id a) c) as [E2|E2]; [congruence|reflexivity].
+  - rewrite IH. reflexivity.
+Qed.
+
+Section Held.
+  Variables (li : nat) (K : bytes) (c : nat) (ex : Z).
+  (* listener li still maps K to connection c, and c is open *)
+  Definition held_x (x : ctx) : Prop := reg_at K c ex (x_p x) /\ conn_open (x_conns x) c = true.
+  Definition held (st : state) : Prop :=
+    (exists p, nth_p (st_proxies st) li = Some p /\ reg_at K c ex p) /\ conn_open (st_conns st) c = true.
+
+  (* the keys a relayed response touches: look-up (resolved host), connection-level, removal
+     ([key_host]: the look-up key again after the repair, the host as written before it) *)
+  Definition send_keys (e : env) (m : message) : option (bytes * bytes * bytes) :=
+    match relay_hop m with
+    | Ok (h, pt, tr) =>
+        let t := match resp_tid_of m with Ok t => t | _ => [] end in
+        Some (full_addr (to_lower tr) (resolve (e_cfg e) h) pt t, full_addr (to_lower tr) (resolve (e_cfg e) h) pt [],
+              full_addr (to_lower tr) (key_host e h) pt t)
+    | _ => None
+    end.
+  Definition own_provisional (cf : cfg) (m : message) : Prop :=
+    is_final_response m = false /\
+    exists h pt tr t, relay_hop m = Ok (h, pt, tr) /\ to_lower tr = tcp /\ resp_tid_of m = Ok t /\
+                      K = full_addr tcp (resolve cf h) pt t.
+  (* [msg_away]: processing m does not disturb the entry K *)
+  Definition msg_away (e : env) (rs : bool) (peer : bytes) (pport : Z) (tcp0 : option nat) (m : message) : Prop :=
+    if is_request m then
+      not_forwarded e m /\
+      match tcp0 with
+      | Some _ => match reg_target (e_fx e) rs peer pport m with
+                  | Some (host, pt, t) =>
+                      K <> full_addr tcp (key_host e host) pt t /\ K <> full_addr tcp (key_host e host) pt []
+                  | None => True
+                  end
+      | None => True
+      end
+    else
+      match send_keys e m with
+      | Some (Ks, As, Kd) => (K <> Ks /\ K <> As /\ K <> Kd) \/ own_provisional (e_cfg e) m
+      | None => True
+      end.
+
+  Lemma held_message e peer pport from rs tcp0 m x x' :
+    process_message e peer pport from rs tcp0 m x = Ok x' -> live (now_s e) ex ->
+    msg_away e rs peer pport tcp0 m -> held_x x -> held_x x'.
+  Proof.
+    intros E L AW [[sec A] O]. unfold msg_away in AW. destruct (is_request m) eqn:R.
+    - destruct AW as [NF AW].
+      destruct (request_local e peer pport from rs tcp0 m x x' R NF E) as [EC ET].
+      split; [|rewrite EC; exact O]. exists sec. rewrite ET.
+      destruct tcp0 as [c'|]; [|exact A]. unfold reg_state.
+      destruct (reg_target (e_fx e) rs peer pport m) as [[[host pt] t]|]; [|exact A].
+      destruct AW as [N1 N2]. apply reg_pure_other; [exact A|apply keepable_conn; exact L|exact N1|exact N2].
+    - destruct (process_message_response_exact e peer pport from rs tcp0 m x R) as (m4 & F2 & F3 & EQ).
+      rewrite EQ in E. injection E as <-. unfold send_keys in AW.
+      set (X := ctx_with x (resp_pure e peer pport (x_p x) m)) in *.
+      assert (AX : alookup K (ps_table (x_p X)) = Some {| fo_pri := Some (PConn c ex); fo_sec := sec |})
+        by (subst X; unfold ctx_with; cbn [x_p]; rewrite resp_pure_tb; exact A).
+      assert (OX : conn_open (x_conns X) c = true) by exact O.
+      destruct (relay_hop m) as [[[h pt] tr]| |] eqn:RH; [|split; [exists sec; exact AX|exact OX]..].
+      cbv zeta in AW.
+      assert (TN : tid_or_nil m4 = match resp_tid_of m with Ok t => t | _ => [] end)
+        by (unfold tid_or_nil; rewrite F2; reflexivity).
+      destruct AW as [(N1 & N2 & N3)|(NF & h' & pt' & tr' & t & RH' & TR & RT & EK)].
+      + rewrite <- TN in N1, N3.
+        destruct (send_message_other e h pt tr m4 X K _ AX (keepable_conn (now_s e) c ex sec L) N1 N2 N3) as [G1 G2].
+        split; [exists sec; exact G1|apply G2; exact OX].
+      + rewrite RH in RH'. injection RH' as <- <- <-.
+        assert (T4 : tid_of m4 = Ok t) by (rewrite F2; exact RT).
+        rewrite EK in AX.
+        destruct (send_message_conn e h pt tr m4 X c ex sec t T4 TR AX L OX) as (_ & O2 & O3).
+        rewrite F3, NF in O3. split; [|rewrite O2; exact OX].
+        exists sec. rewrite O3, EK. apply alookup_aset_same.
+  Qed.
+
+  (* a TCP chunk is clean when every message in it decodes (else the connection is closed) *)
+  Fixpoint chunk_clean (fuel : nat) (s : bytes) : bool :=
+    match fuel with
+    | O => true
+    | S f => match trim_left s with
+             | [] => true
+             | _ => match parse_message s with Ok (_, rest) => chunk_clean f rest | _ => false end
+             end
+    end.
+  Lemma held_tcp e cn : live (now_s e) ex -> forall fuel s x x',
+    tcp_messages fuel e cn s x = Ok x' ->
+    Forall (msg_away e (cn_received_support cn) (cn_peer cn) (cn_peer_port cn) (Some (cn_id cn))) (chunk_msgs fuel s) ->
+    (cn_id cn = c -> chunk_clean fuel s = true) ->
+    held_x x -> held_x x'.
+  Proof.
+    intros L. induction fuel as [|f IH]; intros s x x' E F CL Q; cbn [tcp_messages chunk_msgs chunk_clean] in E, F, CL.
+    - injection E as <-. exact Q.
+    - destruct (trim_left s); [injection E as <-; exact Q|].
+      destruct (parse_message s) as [[m rest]| |].
+      + inversion F as [|m0 l0 AW F']; subst.
+        destruct (process_message e (cn_peer cn) (cn_peer_port cn) (cn_from cn) (cn_received_support cn) (Some (cn_id cn)) m x)
+          as [x1| |] eqn:E1; try discriminate.
+        eapply IH; [exact E|exact F'|exact CL|]. eapply held_message; eassumption.
+      + injection E as <-. destruct Q as [RA O]. split; [exact RA|]. cbn [x_conns].
+        rewrite conn_open_close_other; [exact O|]. intros EC. specialize (CL EC). discriminate.
+      + injection E as <-. destruct Q as [RA O]. split; [exact RA|]. cbn [x_conns].
+        rewrite conn_open_close_other; [exact O|]. intros EC. specialize (CL EC). discriminate.
+  Qed.
+  Lemma mono_tcp e cn c0 : forall fuel s x x',
+    tcp_messages fuel e cn s x = Ok x' -> (cn_id cn = c0 -> chunk_clean fuel s = true) ->
+    conn_open (x_conns x) c0 = true -> conn_open (x_conns x') c0 = true.
+  Proof.
+    induction fuel as [|f IH]; intros s x x' E CL O; cbn [tcp_messages chunk_clean] in E, CL.
+    - injection E as <-. exact O.
+    - destruct (trim_left s); [injection E as <-; exact O|].
+      destruct (parse_message s) as [[m rest]| |].
+      + destruct (process_message e (cn_peer cn) (cn_peer_port cn) (cn_from cn) (cn_received_support cn) (Some (cn_id cn)) m x)
+          as [x1| |] eqn:E1; try discriminate.
+        eapply IH; [exact E|exact CL|]. eapply process_message_mono; eassumption.
+      + injection E as <-. cbn [x_conns]. rewrite conn_open_close_other; [exact O|].
+        intros EC. specialize (CL EC). discriminate.
+      + injection E as <-. cbn [x_conns]. rewrite conn_open_close_other; [exact O|].
+        intros EC. specialize (CL EC). discriminate.
+  Qed.
+
+  Definition ev_away (fx : fixes) (cf : cfg) (now : Z) (branch : bytes) (st : state) (ev : event) : Prop :=
+    match ev with
+    | EvUdp li' src sport data =>
+        li' = li -> forall lc m rest, nth_opt (c_listens cf) li = Some lc -> parse_message data = Ok (m, rest) ->
+          msg_away (mk_env fx cf (item_rs_of (fx_wiring fx)) li lc now branch)
+                   (item_rs_of (fx_wiring fx) lc) src sport None m
+    | EvTcpData cid data =>
+        (cid = c -> chunk_clean (S (List.length data)) data = true) /\
+        forall cn lc, find (fun x => Nat.eqb (cn_id x) cid) (st_conns st) = Some cn -> cn_li cn = li ->
+          nth_opt (c_listens cf) li = Some lc ->
+          Forall (msg_away (mk_env fx cf (item_rs_of (fx_wiring fx)) li lc now branch)
+                           (cn_received_support cn) (cn_peer cn) (cn_peer_port cn) (Some (cn_id cn)))
+                 (chunk_msgs (S (List.length data)) data)
+    | EvTcpAccept li' src sport => li' = li -> K <> full_addr tcp src sport []
+    | EvTcpClose cid => cid <> c
+    | EvBackendAdd _ _ => True
+    | EvBackendRemove _ _ => True
+    end.
+End Held.
+
+Section Held2.
+  Variables (li : nat) (K : bytes) (c : nat) (ex : Z).
+  Definition ctx0 (st : state) (p : pstate) : ctx :=
+    {| x_learned := st_learned st; x_p := p; x_conns := st_conns st; x_world := st_world st; x_outs := [] |}.
+  Lemma run_ctx_held st li' f st' outs :
+    run_ctx st li' f = Ok (st', outs) ->
+    (li' = li -> forall p x', f p (ctx0 st p) = Ok x' -> held_x K c ex (ctx0 st p) -> held_x K c ex x') ->
+    (forall p x', f p (ctx0 st p) = Ok x' -> conn_open (st_conns st) c = true -> conn_open (x_conns x') c = true) ->
+    held li K c ex st -> held li K c ex st'.
+  Proof.
+    intros E H1 H2 [(p & N & RA) O]. unfold run_ctx in E.
+    destruct (nth_p (st_proxies st) li') as [p0|] eqn:N0; [|injection E as <- _; split; [exists p; split; assumption|exact O]].
+    fold (ctx0 st p0) in E.
+    destruct (f p0 (ctx0 st p0)) as [x'| |] eqn:EF; try discriminate. injection E as <- _. unfold held. cbn [st_proxies st_conns].
+    destruct (Nat.eq_dec li' li) as [->|NE].
+    - rewrite N in N0. injection N0 as <-.
+      destruct (H1 eq_refl p x' EF (conj RA O)) as [RA' O']. split; [|exact O'].
+      exists (x_p x'). split; [eapply nth_set_same; exact N|exact RA'].
+    - split; [exists p; split; [rewrite nth_set_other by exact NE; exact N|exact RA]|].
+      eapply H2; [exact EF|exact O].
+  Qed.
+
+  Theorem C12_preserved : forall fx cf now branch st ev st' outs,
+    proxy_step fx cf now branch st ev = Ok (st', outs) ->
+    ev_away li K c fx cf now branch st ev -> now / second <= ex ->
+    held li K c ex st -> held li K c ex st'.
+  Proof.
+    intros fx cf now branch st ev st' outs E OK L Q.
+    destruct ev as [li' src sport data|li' src sport|cid data|cid|li' a|li' a]; cbn [proxy_step ev_away] in E, OK.
+    - destruct (nth_opt (c_listens cf) li') as [lc|] eqn:NL; [|injection E as <- _; exact Q].
+      destruct (parse_message data) as [[m rest]| |] eqn:EP; try (injection E as <- _; exact Q).
+      eapply run_ctx_held; [exact E| | |exact Q].
+      + intros -> p x' EF HX. eapply held_message; [exact EF|exact L|exact (OK eq_refl lc m rest NL eq_refl)|exact HX].
+      + intros p x' EF O. eapply process_message_mono; [exact EF|exact O].
+    - destruct (nth_opt (c_listens cf) li') as [lc|] eqn:NL; [|injection E as <- _; exact Q].
+      destruct (nth_p (st_proxies st) li') as [p0|] eqn:N0; [|injection E as <- _; exact Q].
+      set (e := mk_env fx cf (item_rs_of (fx_wiring fx)) li' lc now branch) in *.
+      pose proof (get_transport_key (now_s e) (s2b "tcp") src sport [] p0) as GK.
+      destruct Q as [(p & N & [sec A]) O].
+      assert (FR : li' = li -> alookup K (ps_table (fst (get_transport (now_s e) (s2b "tcp") src sport [] p0)))
+                             = Some {| fo_pri := Some (PConn c ex); fo_sec := sec |}).
+      { intros ->. rewrite N in N0. injection N0 as <-.
+        apply (get_transport_other (now_s e) tcp src sport [] p K _ A (keepable_conn (now_s e) c ex sec L));
+          apply (OK eq_refl). }
+      destruct (get_transport (now_s e) (s2b "tcp") src sport [] p0) as [p1 rk]. cbn [fst snd] in GK, FR.
+      injection E as <- _. unfold held. cbn [st_proxies st_conns]. split; [|apply conn_open_app; exact O].
+      destruct (Nat.eq_dec li' li) as [->|NE].
+      + eexists. split; [eapply nth_set_same; exact N|]. exists sec.
+        destruct rk as [key| |]; try (apply FR; reflexivity).
+        rewrite set_primary_other; [apply FR; reflexivity|]. rewrite (GK key eq_refl). apply (OK eq_refl).
+      + exists p. split; [rewrite nth_set_other by exact NE; exact N|exists sec; exact A].
+    - destruct OK as [CL AW].
+      destruct (find (fun x => Nat.eqb (cn_id x) cid) (st_conns st)) as [cn|] eqn:EFD; [|injection E as <- _; exact Q].
+      destruct (cn_open cn); [|injection E as <- _; exact Q].
+      destruct (nth_opt (c_listens cf) (cn_li cn)) as [lc|] eqn:NL; [|injection E as <- _; exact Q].
+      assert (ID : cn_id cn = cid) by (apply find_some in EFD; destruct EFD as [_ H]; apply Nat.eqb_eq; exact H).
+      assert (CL' : cn_id cn = c -> chunk_clean (S (List.length data)) data = true) by (intros H; apply CL; congruence).
+      eapply run_ctx_held; [exact E| | |exact Q].
+      + intros ELI p x' EF HX. rewrite ELI in NL, EF.
+        eapply held_tcp; [|exact EF|exact (AW cn lc eq_refl ELI NL)|exact CL'|exact HX]. exact L.
+      + intros p x' EF O. eapply mono_tcp; [exact EF|exact CL'|exact O].
+    - injection E as <- _. destruct Q as [QP O]. split; [exact QP|]. cbn [st_conns].
+      rewrite conn_open_close_other; [exact O|exact OK].
+    - destruct Q as [(p & N & RA) O].
+      destruct (nth_p (st_proxies st) li') as [p0|] eqn:N0; [|injection E as <- _; split; [exists p; split; assumption|exact O]].
+      injection E as <- _. unfold held. cbn [st_proxies st_conns]. split; [|exact O].
+      destruct (Nat.eq_dec li' li) as [->|NE].
+      + rewrite N in N0. injection N0 as <-. eexists. split; [eapply nth_set_same; exact N|exact RA].
+      + exists p. split; [rewrite nth_set_other by exact NE; exact N|exact RA].
+    - destruct Q as [(p & N & RA) O].
+      destruct (nth_p (st_proxies st) li') as [p0|] eqn:N0; [|injection E as <- _; split; [exists p; split; assumption|exact O]].
+      destruct (rr_remove a (ps_rr p0)) as [r' closed]. injection E as <- _. unfold held. cbn [st_proxies st_conns].
+      split; [|exact O].
+      destruct (Nat.eq_dec li' li) as [->|NE].
+      + rewrite N in N0. injection N0 as <-. eexists. split; [eapply nth_set_same; exact N|exact RA].
+      + exists p. split; [rewrite nth_set_other by exact NE; exact N|exact RA].
+  Qed.
+
+  (* [hist_away st h]: no event of h disturbs the entry, each judged in the state it meets *)
+  Fixpoint hist_away (fx : fixes) (cf : cfg) (st : state) (h : hist) : Prop :=
+    match h with
+    | [] => True
+    | (now, br, ev) :: r =>
+        now / second <= ex /\ ev_away li K c fx cf now br st ev /\
+        match proxy_step fx cf now br st ev with
+        | Ok (st1, _) => hist_away fx cf st1 r
+        | _ => True
+        end
+    end.
+  Theorem C12_preserved_history : forall fx cf h st st' outss,
+    run fx cf st h = Ok (st', outss) -> hist_away fx cf st h -> held li K c ex st -> held li K c ex st'.
+  Proof.
+    intros fx cf. induction h as [|[[now br] ev] r IH]; intros st st' outss E F Q; cbn [run] in E.
+    - injection E as <- _. exact Q.
+    - cbn [hist_away] in F. destruct F as (L & AW & F).
+      destruct (proxy_step fx cf now br st ev) as [[st1 o]| |] eqn:E1; cbn [rbind] in E; try discriminate.
+      destruct (run fx cf st1 r) as [[st2 os]| |] eqn:E2; cbn [rbind] in E; try discriminate.
+      injection E as <- _. eapply IH; [exact E2|exact F|]. eapply C12_preserved; eassumption.
+  Qed.
+End Held2.
+
+(* ---- one complete request in a TCP chunk ---- *)
+Lemma parse_ok_nonblank s m rest : parse_message s = Ok (m, rest) -> trim_left s <> [].
+Proof. intros EP ET. unfold parse_message in EP. rewrite ET in EP. cbn in EP. discriminate. Qed.
+Lemma tcp_single e cn data m rest x x' :
+  parse_message data = Ok (m, rest) -> trim_left rest = [] ->
+  tcp_messages (S (List.length data)) e cn data x = Ok x' ->
+  process_message e (cn_peer cn) (cn_peer_port cn) (cn_from cn) (cn_received_support cn) (Some (cn_id cn)) m x = Ok x'.
+Proof.
+  intros EP TR E. cbn [tcp_messages] in E. pose proof (parse_ok_nonblank data m rest EP) as NB.
+  destruct (trim_left data) as [|a l]; [contradiction|]. rewrite EP in E.
+  destruct (process_message e (cn_peer cn) (cn_peer_port cn) (cn_from cn) (cn_received_support cn) (Some (cn_id cn)) m x)
+    as [x1| |]; try discriminate.
+  destruct (List.length data) as [|f]; cbn [tcp_messages] in E; [exact E|]. rewrite TR in E. exact E.
+Qed.
+Lemma chunk_clean_single data m rest : parse_message data = Ok (m, rest) -> trim_left rest = [] ->
+  chunk_clean (S (List.length data)) data = true.
+Proof.
+  intros EP TR. cbn [chunk_clean]. destruct (trim_left data); [reflexivity|]. rewrite EP.
+  destruct (List.length data); cbn [chunk_clean]; [reflexivity|]. rewrite TR. reflexivity.
+Qed.
+Lemma find_conn_open cs c cn : find (fun x => Nat.eqb (cn_id x) c) cs = Some cn -> cn_open cn = true ->
+  conn_open cs c = true.
+Proof.
+  intros F O. apply find_some in F. destruct F as [HI HE]. unfold conn_open. apply existsb_exists.
+  exists cn. split; [exact HI|]. rewrite HE, O. reflexivity.
+Qed.
+
+(* ---- C12_same_connection: request on connection c ... any interleaving ... response ---- *)
+Theorem C12_same_connection : forall cf li lc h1 tq bq c dataq h2 tr br peer pport datar st0 stf outss
+    st1 o1 cn pq mq restq mr restr v cs brq h0 pt tr0 host v2 host2 trr cs2,
+  nth_opt (c_listens cf) li = Some lc ->
+  run all_fixed cf st0 (h1 ++ (tq, bq, EvTcpData c dataq) :: h2 ++ [(tr, br, EvUdp li peer pport datar)]) = Ok (stf, outss) ->
+  run all_fixed cf st0 h1 = Ok (st1, o1) ->
+  (* c is an open connection of listener li *)
+  find (fun x => Nat.eqb (cn_id x) c) (st_conns st1) = Some cn -> cn_open cn = true -> cn_li cn = li ->
+  nth_p (st_proxies st1) li = Some pq ->
+  (* the request: one complete message, not relayed along a Route / static route *)
+  parse_message dataq = Ok (mq, restq) -> trim_left restq = [] ->
+  is_request mq = true -> not_forwarded (mk_env all_fixed cf (item_rs_of true) li lc tq bq) mq ->
+  top_via_of mq = Ok v -> snd (s_get_cseq mq) = Ok cs -> via_get_branch v = Some brq ->
+  hop_of_via (stamp_via (cn_received_support cn) (cn_peer cn) (cn_peer_port cn) v) = (h0, pt, tr0) ->
+  reg_host all_fixed h0 = Ok host ->
+  (* the entry is filed under the RESOLVED response host *)
+  let K := full_addr tcp (resolve cf host) pt (cs_method cs ++ "-"%char :: brq) in
+  let ex := tq / second + 3600 in
+  (* in between: nothing that touches K except provisional responses of the transaction itself;
+     c is not closed; less than 3600 s *)
+  (forall st2 oq, proxy_step all_fixed cf tq bq st1 (EvTcpData c dataq) = Ok (st2, oq) ->
+                  hist_away li K c ex all_fixed cf st2 h2) ->
+  (* the response: the client's Via entry under the proxy's: a response host that resolves to the
+     same address (in particular the same text), same port, same branch, same CSeq method *)
+  parse_message datar = Ok (mr, restr) -> is_request mr = false ->
+  next_top mr = Ok v2 -> hop_of_via v2 = (host2, pt, trr) -> to_lower trr = tcp ->
+  snd (s_get_cseq mr) = Ok cs2 -> cs_method cs2 = cs_method cs -> via_get_branch v2 = Some brq ->
+  resolve cf host2 = resolve cf host -> tr / second <= ex ->
+  exists b, last outss [] = [(DConn c, b)].
+Proof.
+  intros cf li lc h1 tq bq c dataq h2 tr br peer pport datar st0 stf outss st1 o1 cn pq mq restq mr restr
+         v cs brq h0 pt tr0 host v2 host2 trr cs2
+         NL E E1 EFD CO CLI NP EPq TRq Rq NF TV CS BR HOP RH K ex HA EPr Rr NT HOP2 TR2 CS2 CM BR2 RS LR.
+  rewrite run_app, E1 in E. cbn [rbind run] in E.
+  destruct (proxy_step all_fixed cf tq bq st1 (EvTcpData c dataq)) as [[st2 oq]| |] eqn:E2; cbn [rbind] in E; try discriminate.
+  rewrite run_app in E.
+  destruct (run all_fixed cf st2 h2) as [[st3 o3]| |] eqn:E3; cbn [rbind run] in E; try discriminate.
+  destruct (proxy_step all_fixed cf tr br st3 (EvUdp li peer pport datar)) as [[st4 outs]| |] eqn:E4; cbn [rbind] in E; try discriminate.
+  injection E as _ <-.
+  assert (ID : cn_id cn = c) by (apply find_some in EFD; destruct EFD as [_ H]; apply Nat.eqb_eq; exact H).
+  assert (Q2 : held li K c ex st2).
+  { pose proof E2 as E2'. cbn [proxy_step] in E2'. rewrite EFD in E2'. cbv beta iota in E2'. rewrite CO in E2'.
+    cbv beta iota zeta in E2'. rewrite CLI, NL in E2'. cbv beta iota zeta in E2'.
+    unfold run_ctx in E2'. rewrite NP in E2'. cbv beta iota in E2'.
+    set (eq := mk_env all_fixed cf (item_rs_of (fx_wiring all_fixed)) li lc tq bq) in *.
+    set (x0 := {| x_learned := st_learned st1; x_p := pq; x_conns := st_conns st1; x_world := st_world st1; x_outs := [] |}) in *.
+    destruct (tcp_messages (S (List.length dataq)) eq cn dataq x0) as [x'| |] eqn:ET; try discriminate.
+    injection E2' as <- _.
+    apply (tcp_single eq cn dataq mq restq x0 x' EPq TRq) in ET.
+    destruct (C12_register eq (cn_peer cn) (cn_peer_port cn) (cn_from cn) (cn_received_support cn) (cn_id cn) mq x0 x'
+                           v cs brq h0 pt tr0 host eq_refl Rq NF TV CS BR HOP RH ET) as (RA & EC & _).
+    split.
+    - exists (x_p x'). split; [cbn [st_proxies]; eapply nth_set_same; exact NP|]. rewrite ID in RA. exact RA.
+    - cbn [st_conns]. rewrite EC. apply (find_conn_open (st_conns st1) c cn EFD CO). }
+  assert (Q3 : held li K c ex st3) by (eapply C12_preserved_history; [exact E3|exact (HA st2 oq eq_refl)|exact Q2]).
+  destruct Q3 as [(p3 & N3 & RA3) O3].
+  cbn [proxy_step] in E4. rewrite NL, EPr in E4. unfold run_ctx in E4. rewrite N3 in E4.
+  set (er := mk_env all_fixed cf (item_rs_of (fx_wiring all_fixed)) li lc tr br) in *.
+  set (x3 := {| x_learned := st_learned st3; x_p := p3; x_conns := st_conns st3; x_world := st_world st3; x_outs := [] |}) in *.
+  destruct (C12_lookup er peer pport (udp_from lc) (e_item_rs er) None mr x3 v2 host2 pt trr cs2 brq c ex
+                       Rr NT HOP2 TR2 CS2 BR2) as (x' & b & EQ & O1 & _).
+  - change (e_cfg er) with cf. rewrite RS, CM. exact RA3.
+  - exact LR.
+  - exact O3.
+  - unfold udp_from in EQ. rewrite EQ in E4. injection E4 as _ <-. exists b. rewrite app_comm_cons, app_assoc, last_last, O1. reflexivity.
+Qed.
+
+(* ---- executable versions of the hypotheses (for concrete histories and for judges) ---- *)
+Definition not_forwarded_b (e : env) (m : message) : bool :=
+  match hvals (s2b "Route") (m_headers m) with [] => true | _ => false end &&
+  match static_hop e m with Ok _ => false | _ => true end.
+Definition own_provisional_b (K : bytes) (cf : cfg) (m : message) : bool :=
+  negb (is_final_response m) &&
+  match relay_hop m, resp_tid_of m with
+  | Ok (h, pt, tr), Ok t => beq (to_lower tr) tcp && beq K (full_addr tcp (resolve cf h) pt t)
+  | _, _ => false
+  end.
+Definition msg_away_b (K : bytes) (e : env) (rs : bool) (peer : bytes) (pport : Z) (tcp0 : option nat) (m : message) : bool :=
+  if is_request m then
+    not_forwarded_b e m &&
+    match tcp0 with
+    | Some _ => match reg_target (e_fx e) rs peer pport m with
+                | Some (host, pt, t) => negb (beq K (full_addr tcp (key_host e host) pt t)) &&
+                                        negb (beq K (full_addr tcp (key_host e host) pt []))
+                | None => true
+                end
+    | None => true
+    end
+  else
+    match send_keys e m with
+    | Some (Ks, As, Kd) => (negb (beq K Ks) && negb (beq K As) && negb (beq K Kd)) || own_provisional_b K (e_cfg e) m
+    | None => true
+    end.
+Lemma msg_away_b_sound K e rs peer pport tcp0 m :
+  msg_away_b K e rs peer pport tcp0 m = true -> msg_away K e rs peer pport tcp0 m.
+Proof.
+  unfold msg_away_b, msg_away. destruct (is_request m).
+  - intros H. apply andb_true_iff in H. destruct H as [H1 H2]. split.
+    + unfold not_forwarded_b in H1. apply andb_true_iff in H1. destruct H1 as [A B]. split.
+      * destruct (hvals _ _); [reflexivity|discriminate].
+      * intros v Hv. rewrite Hv in B. discriminate.
+    + destruct tcp0; [|exact I]. destruct (reg_target (e_fx e) rs peer pport m) as [[[host pt] t]|]; [|exact I].
+      apply andb_true_iff in H2. destruct H2 as [A B]. split; apply beq_neq; apply negb_true_iff; assumption.
+  - intros H. destruct (send_keys e m) as [[[Ks As] Kd]|]; [|exact I].
+    apply orb_true_iff in H. destruct H as [H|H].
+    + left. apply andb_true_iff in H. destruct H as [H C]. apply andb_true_iff in H. destruct H as [A B].
+      repeat split; apply beq_neq; apply negb_true_iff; assumption.
+    + right. unfold own_provisional_b in H. apply andb_true_iff in H. destruct H as [A B].
+      split; [apply negb_true_iff; exact A|].
+      destruct (relay_hop m) as [[[h pt] tr]| |] eqn:RH; try discriminate.
+      destruct (resp_tid_of m) as [t| |] eqn:RT; try discriminate.
+      apply andb_true_iff in B. destruct B as [B1 B2]. exists h, pt, tr, t.
+      split; [reflexivity|]. split; [apply beq_eq; exact B1|]. split; [reflexivity|apply beq_eq; exact B2].
+Qed.
+Definition ev_away_b (li : nat) (K : bytes) (c : nat) (fx : fixes) (cf : cfg) (now : Z) (branch : bytes)
+           (st : state) (ev : event) : bool :=
+  match ev with
+  | EvUdp li' src sport data =>
+      negb (Nat.eqb li' li) ||
+      match nth_opt (c_listens cf) li, parse_message data with
+      | Some lc, Ok (m, _) => msg_away_b K (mk_env fx cf (item_rs_of (fx_wiring fx)) li lc now branch)
+                                         (item_rs_of (fx_wiring fx) lc) src sport None m
+      | _, _ => true
+      end
+  | EvTcpData cid data =>
+      (negb (Nat.eqb cid c) || chunk_clean (S (List.length data)) data) &&
+      match find (fun x => Nat.eqb (cn_id x) cid) (st_conns st) with
+      | Some cn =>
+          negb (Nat.eqb (cn_li cn) li) ||
+          match nth_opt (c_listens cf) li with
+          | Some lc => forallb (msg_away_b K (mk_env fx cf (item_rs_of (fx_wiring fx)) li lc now branch)
+                                           (cn_received_support cn) (cn_peer cn) (cn_peer_port cn) (Some (cn_id cn)))
+                               (chunk_msgs (S (List.length data)) data)
+          | None => true
+          end
+      | None => true
+      end
+  | EvTcpAccept li' src sport => negb (Nat.eqb li' li) || negb (beq K (full_addr tcp src sport []))
+  | EvTcpClose cid => negb (Nat.eqb cid c)
+  | EvBackendAdd _ _ => true
+  | EvBackendRemove _ _ => true
+  end.
+Lemma ev_away_b_sound li K c fx cf now branch st ev :
+  ev_away_b li K c fx cf now branch st ev = true -> ev_away li K c fx cf now branch st ev.
+Proof.
+  destruct ev as [li' src sport data|li' src sport|cid data|cid|li' a|li' a]; cbn [ev_away_b ev_away]; intros H; try exact I.
+  - intros -> lc m rest NL EP. rewrite Nat.eqb_refl, NL, EP in H. cbn [negb orb] in H. apply msg_away_b_sound. exact H.
+  - intros ->. rewrite Nat.eqb_refl in H. cbn [negb orb] in H. apply beq_neq. apply negb_true_iff. exact H.
+  - apply andb_true_iff in H. destruct H as [H1 H2]. split.
+    + intros ->. rewrite Nat.eqb_refl in H1. exact H1.
+    + intros cn lc EFD ELI NL. rewrite EFD, ELI, Nat.eqb_refl, NL in H2. cbn [negb orb] in H2.
+      apply Forall_forall. intros m Hm. apply msg_away_b_sound. rewrite forallb_forall in H2. apply H2. exact Hm.
+  - intros ->. rewrite Nat.eqb_refl in H. discriminate.
+Qed.
+Fixpoint hist_away_b (li : nat) (K : bytes) (c : nat) (ex : Z) (fx : fixes) (cf : cfg) (st : state) (h : hist) : bool :=
+  match h with
+  | [] => true
+  | (now, br, ev) :: r =>
+      Z.leb (now / second) ex && ev_away_b li K c fx cf now br st ev &&
+      match proxy_step fx cf now br st ev with
+      | Ok (st1, _) => hist_away_b li K c ex fx cf st1 r
+      | _ => true
+      end
+  end.
+Lemma hist_away_b_sound li K c ex fx cf h : forall st,
+  hist_away_b li K c ex fx cf st h = true -> hist_away li K c ex fx cf st h.
+Proof.
+  induction h as [|[[now br] ev] r IH]; intros st H; cbn [hist_away_b hist_away] in *; [exact I|].
+  apply andb_true_iff in H. destruct H as [H H3]. apply andb_true_iff in H. destruct H as [H1 H2].
+  split; [apply Z.leb_le; exact H1|]. split; [apply ev_away_b_sound; exact H2|].
+  destruct (proxy_step fx cf now br st ev) as [[st1 o]| |]; [apply IH; exact H3|exact I|exact I].
+Qed.
+
+(* ================================================================== Part 6: computed examples *)
+(* two connections from the same peer ip, the same Via sent-by, different branches; requests and
+   responses (180 then 200) interleaved and reordered across the connections *)
+Definition x_lc (nr : bool) : listen_cfg :=
+  {| lc_addr := s2b "10.0.0.1"; lc_udp := 5060; lc_tcp := 5060;
+     lc_backends := [s2b "10.0.0.11:5070"];
+     lc_dynamic := false; lc_no_received := nr; lc_def_route := false; lc_must_rr := false |}.
+Definition x_cfg (nr : bool) (hosts : list (bytes * bytes)) : cfg :=
+  {| c_name := s2b "sip.example.com"; c_keep_next_hop := false; c_dialog_timeout := 1800;
+     c_routes := []; c_hosts := hosts; c_listens := [x_lc nr] |}.
+Definition x_invite (branch callid : string) : bytes := sip [
+  "INVITE sip:bob@sip.example.com SIP/2.0";
+  ("Via: SIP/2.0/TCP client.example:5060;branch=" ++ branch)%string;
+  "From: <sip:alice@client.example>;tag=a-1";
+  "To: <sip:bob@sip.example.com>";
+  ("Call-ID: " ++ callid)%string;
+  "CSeq: 1 INVITE";
+  "Content-Length: 0"]%string.
+Definition x_resp (status pxbranch branch callid recv : string) : bytes := sip [
+  ("SIP/2.0 " ++ status)%string;
+  ("Via: SIP/2.0/UDP 10.0.0.1:5060;branch=" ++ pxbranch)%string;
+  ("Via: SIP/2.0/TCP client.example:5060;branch=" ++ branch ++ recv)%string;
+  "From: <sip:alice@client.example>;tag=a-1";
+  "To: <sip:bob@sip.example.com>;tag=b-2";
+  ("Call-ID: " ++ callid)%string;
+  "CSeq: 1 INVITE";
+  "Content-Length: 0"]%string.
+Definition rcv : string := ";received=10.0.0.50"%string.
+Definition x_h1 : hist :=
+  [ (sec 1, s2b "z9hG4bKpx0", EvTcpAccept 0 (s2b "10.0.0.50") 40001);
+    (sec 2, s2b "z9hG4bKpx1", EvTcpAccept 0 (s2b "10.0.0.50") 40002) ].
+Definition x_h2 : hist :=
+  [ (sec 4, s2b "z9hG4bKpx3", EvTcpData 1 (x_invite "z9hG4bKb" "call-b"));
+    (sec 5, s2b "z9hG4bKpx4", EvUdp 0 (s2b "10.0.0.11") 5070 (x_resp "180 Ringing" "z9hG4bKpx3" "z9hG4bKb" "call-b" rcv));
+    (sec 6, s2b "z9hG4bKpx5", EvUdp 0 (s2b "10.0.0.11") 5070 (x_resp "180 Ringing" "z9hG4bKpx2" "z9hG4bKa" "call-a" rcv)) ].
+Definition x_req : Z * bytes * event := (sec 3, s2b "z9hG4bKpx2", EvTcpData 0 (x_invite "z9hG4bKa" "call-a")).
+Definition x_fin : Z * bytes * event :=
+  (sec 7, s2b "z9hG4bKpx6", EvUdp 0 (s2b "10.0.0.11") 5070 (x_resp "200 OK" "z9hG4bKpx2" "z9hG4bKa" "call-a" rcv)).
+Definition x_tail : hist :=
+  [ (sec 8, s2b "z9hG4bKpx7", EvUdp 0 (s2b "10.0.0.11") 5070 (x_resp "200 OK" "z9hG4bKpx3" "z9hG4bKb" "call-b" rcv));
+    (sec 9, s2b "z9hG4bKpx8", EvUdp 0 (s2b "10.0.0.11") 5070 (x_resp "200 OK" "z9hG4bKpx2" "z9hG4bKa" "call-a" rcv)) ].
+Definition x_hist : hist := x_h1 ++ x_req :: x_h2 ++ [x_fin] ++ x_tail.
+Definition x_c0 := x_cfg false [].
+Definition x_st0 : state := init_state x_c0 0 [].
+Definition keys_of (r : res (state * list (list output))) : list bytes :=
+  match r with
+  | Ok (st, _) => match nth_p (st_proxies st) 0 with Some p => map fst (ps_table p) | None => [] end
+  | _ => []
+  end.
+(* every response on the connection of its own request; the retransmitted 200 of the finished
+   transaction goes to NO connection (the peer does not accept connections) *)
+Example C12_history_ex :
+  dests (run all_fixed x_c0 x_st0 x_hist) =
+  [ []; []; [DUdp (s2b "10.0.0.11") 5070]; [DUdp (s2b "10.0.0.11") 5070];
+    [DConn 1]; [DConn 0]; [DConn 0]; [DConn 1]; [] ] /\
+  keys_of (run all_fixed x_c0 x_st0 (firstn 4 x_hist)) =
+  map s2b ["tcp://10.0.0.50:40001"; "tcp://10.0.0.50:40002"; "tcp://10.0.0.50:5060";
+           "tcp://10.0.0.50:5060-INVITE-z9hG4bKa"; "tcp://10.0.0.50:5060-INVITE-z9hG4bKb"]%string /\
+  keys_of (run all_fixed x_c0 x_st0 x_hist) =
+  map s2b ["tcp://10.0.0.50:40001"; "tcp://10.0.0.50:40002"; "tcp://10.0.0.50:5060"]%string.
+Proof. vm_compute. repeat split; reflexivity. Qed.
+
+(* B2, computed.  Stamping off, sent-by = a NAME of the host table.  Before the repair the
+   registration was filed under the name, the look-up used the resolved address, the removal the
+   name again: the final response was NOT written to connection 0 (dropped when 10.0.0.50:5060
+   accepts no connection, sent on a NEW connection when it does) and the look-up entries stayed in
+   the table for ever.  After the repair all three use the resolved address *)
+Definition b2_cfg : cfg := x_cfg true [(s2b "client.example", s2b "10.0.0.50")].
+Definition b2_hist : hist :=
+  [ (sec 1, s2b "z9hG4bKpx0", EvTcpAccept 0 (s2b "10.0.0.50") 40001);
+    (sec 3, s2b "z9hG4bKpx2", EvTcpData 0 (x_invite "z9hG4bKa" "call-a"));
+    (sec 7, s2b "z9hG4bKpx6", EvUdp 0 (s2b "10.0.0.11") 5070 (x_resp "200 OK" "z9hG4bKpx2" "z9hG4bKa" "call-a" "")) ].
+Definition legacy_key_fixes : fixes :=
+  {| fx_wiring := true; fx_udp_via_listener := true; fx_indialog_invite := true; fx_bracket_host := true;
+     fx_resolved_key := false |}.
+Theorem C12_legacy_refuted :
+  (* before the repair (fx_resolved_key = false) *)
+  dests (run legacy_key_fixes b2_cfg (init_state b2_cfg 0 []) b2_hist) = [ []; [DUdp (s2b "10.0.0.11") 5070]; [] ] /\
+  dests (run legacy_key_fixes b2_cfg (init_state b2_cfg 0 [(s2b "10.0.0.50", 5060)]) b2_hist) =
+    [ []; [DUdp (s2b "10.0.0.11") 5070]; [DDial (s2b "10.0.0.50") 5060 1; DConn 1] ] /\
+  keys_of (run legacy_key_fixes b2_cfg (init_state b2_cfg 0 []) (firstn 2 b2_hist)) =
+    map s2b ["tcp://10.0.0.50:40001"; "tcp://client.example:5060"; "tcp://client.example:5060-INVITE-z9hG4bKa"]%string /\
+  keys_of (run legacy_key_fixes b2_cfg (init_state b2_cfg 0 []) b2_hist) =
+    map s2b ["tcp://10.0.0.50:40001"; "tcp://client.example:5060"; "tcp://10.0.0.50:5060";
+             "tcp://10.0.0.50:5060-INVITE-z9hG4bKa"]%string /\
+  (* after the repair: the same history delivers the 200 on connection 0, whether or not
+     10.0.0.50:5060 accepts connections, and the per-transaction key is consumed *)
+  dests (run all_fixed b2_cfg (init_state b2_cfg 0 []) b2_hist) = [ []; [DUdp (s2b "10.0.0.11") 5070]; [DConn 0] ] /\
+  dests (run all_fixed b2_cfg (init_state b2_cfg 0 [(s2b "10.0.0.50", 5060)]) b2_hist) =
+    [ []; [DUdp (s2b "10.0.0.11") 5070]; [DConn 0] ] /\
+  keys_of (run all_fixed b2_cfg (init_state b2_cfg 0 []) (firstn 2 b2_hist)) =
+    map s2b ["tcp://10.0.0.50:40001"; "tcp://10.0.0.50:5060"; "tcp://10.0.0.50:5060-INVITE-z9hG4bKa"]%string /\
+  keys_of (run all_fixed b2_cfg (init_state b2_cfg 0 []) b2_hist) =
+    map s2b ["tcp://10.0.0.50:40001"; "tcp://10.0.0.50:5060"]%string.
+Proof. vm_compute. repeat split; reflexivity. Qed.
+(* the same sent-by when the name is NOT in the host table: delivered on connection 0, entry consumed *)
+Example C12_unknown_name_ok :
+  let cf := x_cfg true [] in
+  dests (run all_fixed cf (init_state cf 0 []) b2_hist) = [ []; [DUdp (s2b "10.0.0.11") 5070]; [DConn 0] ] /\
+  keys_of (run all_fixed cf (init_state cf 0 []) b2_hist) = map s2b ["tcp://10.0.0.50:40001"; "tcp://client.example:5060"]%string.
+Proof. vm_compute. split; reflexivity. Qed.
+
+(* the hypotheses of C12_same_connection hold on the interleaved history: the 200 of transaction a *)
+Definition x_r1 := run all_fixed x_c0 x_st0 x_h1.
+Definition x_st1 : state := match x_r1 with Ok (s, _) => s | _ => x_st0 end.
+Definition x_o1 : list (list output) := match x_r1 with Ok (_, o) => o | _ => [] end.
+Definition x_dummy_conn : conn :=
+  {| cn_id := 0; cn_li := 0; cn_open := false; cn_peer := []; cn_peer_port := 0;
+     cn_from := udp_from (x_lc false); cn_received_support := false |}.
+Definition x_cn : conn := match find (fun x => Nat.eqb (cn_id x) 0) (st_conns x_st1) with Some cn => cn | None => x_dummy_conn end.
+Definition x_pq : pstate := match nth_p (st_proxies x_st1) 0 with Some p => p | None => init_pstate x_c0 0 (x_lc false) end.
+Definition x_dummy_via : via_param := create_via_param [] [] 0.
+Definition x_dummy_cseq : cseq := {| cs_seq := 0; cs_method := [] |}.
+Definition via_or_dummy (r : res via_param) : via_param := match r with Ok v => v | _ => x_dummy_via end.
+Definition cseq_or_dummy (r : res cseq) : cseq := match r with Ok c => c | _ => x_dummy_cseq end.
+Definition x_dataq : bytes := x_invite "z9hG4bKa" "call-a".
+Definition x_datar : bytes := x_resp "200 OK" "z9hG4bKpx2" "z9hG4bKa" "call-a" rcv.
+Example C12_same_connection_ex :
+  exists b, last (match run all_fixed x_c0 x_st0 (x_h1 ++ x_req :: x_h2 ++ [x_fin]) with Ok (_, o) => o | _ => [] end) []
+            = [(DConn 0, b)].
+Proof.
+  destruct (run all_fixed x_c0 x_st0 (x_h1 ++ x_req :: x_h2 ++ [x_fin])) as [[stf outss]| |] eqn:E;
+    try (vm_compute in E; discriminate E).
+  eapply (C12_same_connection x_c0 0%nat (x_lc false) x_h1 (sec 3) (s2b "z9hG4bKpx2") 0%nat x_dataq x_h2
+            (sec 7) (s2b "z9hG4bKpx6") (s2b "10.0.0.11") 5070 x_datar x_st0 stf outss
+            x_st1 x_o1 x_cn x_pq (msg_of x_dataq) (rest_of x_dataq) (msg_of x_datar) (rest_of x_datar)
+            (via_or_dummy (top_via_of (msg_of x_dataq))) (cseq_or_dummy (snd (s_get_cseq (msg_of x_dataq))))
+            (s2b "z9hG4bKa") (s2b "10.0.0.50") 5060 (s2b "TCP") (s2b "10.0.0.50")
+            (via_or_dummy (next_top (msg_of x_datar))) (s2b "10.0.0.50") (s2b "TCP") (cseq_or_dummy (snd (s_get_cseq (msg_of x_datar))))).
+  - reflexivity.
+  - exact E.
+  - vm_compute. reflexivity.
+  - vm_compute. reflexivity.
+  - vm_compute. reflexivity.
+  - vm_compute. reflexivity.
+  - vm_compute. reflexivity.
+  - vm_compute. reflexivity.
+  - vm_compute. reflexivity.
+  - vm_compute. reflexivity.
+  - split; [vm_compute; reflexivity|]. intros v Hv. vm_compute in Hv. discriminate Hv.
+  - vm_compute. reflexivity.
+  - vm_compute. reflexivity.
+  - vm_compute. reflexivity.
+  - vm_compute. reflexivity.
+  - vm_compute. reflexivity.
+  - intros st2 oq E2. vm_compute in E2. injection E2 as <- _. apply hist_away_b_sound. vm_compute. reflexivity.
+  - vm_compute. reflexivity.
+  - vm_compute. reflexivity.
+  - vm_compute. reflexivity.
+  - vm_compute. reflexivity.
+  - vm_compute. reflexivity.
+  - vm_compute. reflexivity.
+  - vm_compute. reflexivity.
+  - vm_compute. reflexivity.
+  - vm_compute. reflexivity.
+  - vm_compute. discriminate.
+Qed.
+
+(* ------------------------------------------------------------------ axiom audit *)
+Print Assumptions full_addr_inj_tid.
+Print Assumptions keys_differ.
+Print Assumptions C12_register.
+Print Assumptions C12_lookup.
+Print Assumptions C12_until_final.
+Print Assumptions C12_preserved.
+Print Assumptions C12_preserved_history.
+Print Assumptions C12_same_connection.
+Print Assumptions C12_history_ex.
+Print Assumptions C12_legacy_refuted.
+Print Assumptions C12_same_connection_ex.
